@@ -476,6 +476,32 @@ def r_recurse(P, chk, tier="quick"):
                       "recursive cycle {%s} has no depth guard and is not confined to block-level nesting (%s): its depth follows "
                       "the input (pair / list nesting is built by loops, so no parser limit bounds it); reachable via %s" % (
                           label, "; ".join(why) or "no guard found", chain), {"chain": chain})
+    # a guard counter bounds the descent only while nothing inside the recursion re-opens the budget: no function of any
+    # recursive cycle may store a constant into a field that one of the guards above compares with its limit
+    counters = set()
+    for comp in sccs:
+        for fid in comp:
+            g = _guard_in(P, P.by_fid(fid), {c[1] for c in comp})
+            if g:
+                m_ = re.search(r"counter `[^`]*->(\w+)`", g[1])
+                if m_:
+                    counters.add(m_.group(1))
+    nstores = 0
+    if counters:
+        for comp in sccs:
+            for fid in comp:
+                f = P.by_fid(fid)
+                for x in f.walk():
+                    if x["k"] == "BinaryOperator" and x["op"] == "=":
+                        l = strip(x["c"][0])
+                        if l is not None and l["k"] == "MemberExpr" and l["n"] in counters and const_value(x["c"][1]) is not None:
+                            nstores += 1
+                            chk.obligation(rid, "%s %s: constant stored into depth counter %s inside a recursive cycle" % (f.where(x), f.name, key(x["c"][0])), False)
+                            chk.violation(rid, "recurse:counter-reset:%s:%s" % (f.name, l["n"]), f.where(x),
+                                          "%s sets the depth counter `%s` to a constant while it is part of a recursive cycle: every "
+                                          "pass through this statement re-opens the depth budget, so the guard `%s >= limit` no longer "
+                                          "bounds the descent" % (f.name, key(x["c"][0]), l["n"]))
+        chk.obligation(rid, "depth counters %s: no function of a recursive cycle stores a constant into them" % sorted(counters), nstores == 0)
     # stack budget: parse, pair and export phases run one after another, so the worst phase counts;
     # within a phase nested SCCs add up.  Conservative: sum over all guarded SCCs of bound x frame.
     kparse = next((b for l, b, fr in budget_terms if "mmd_parse_token_chain" in l and b), None)
